@@ -20,6 +20,10 @@ func Main(args []string) int {
 	switch args[0] {
 	case "dev":
 		return devMain(args[1:])
+	case "replicas":
+		return replicasMain(args[1:])
+	case "worker":
+		return workerMain(args[1:])
 	case "roundtrip":
 		return roundtripMain(args[1:])
 	}
